@@ -191,3 +191,40 @@ func VerifHarness_C03_names()    { verifC03(1, 0, "main") }
 func VerifHarness_C03_gen2()     { verifC03(2, 2, "main") }
 func VerifHarness_C03_gen3()     { verifC03(2, 3, "main") }
 func VerifHarness_C03_witness()  { verifC03(0, 3, "witness") }
+
+// verifC03Types: the SQL export of a column type. A column inspected with the
+// declared type `raw` is exported as FormatType of its parsed type; creating
+// the table again stores that text as the declared type, and inspecting it
+// parses that text. The real differ must see no change between the two, and
+// a type the driver does not know (user-defined) keeps its exact spelling.
+func verifC03Types() {
+	t0 := verifSQLiteType()
+	s0, err := FormatType(t0)
+	verifAssert(err == nil, "the inspected type is exported")
+	if err != nil {
+		return
+	}
+	t1, err := ParseType(s0)
+	verifAssert(err == nil, "the exported type is inspected again")
+	if err != nil {
+		return
+	}
+	sch := schema.New("main")
+	mk := func(t schema.Type, raw string) *schema.Table {
+		c := schema.NewColumn("c").SetType(t)
+		c.Type.Raw = raw
+		return schema.NewTable("t").SetSchema(sch).AddColumns(schema.NewIntColumn("id", "integer"), c)
+	}
+	raw0, _ := FormatType(t0)
+	a, b := mk(t0, raw0), mk(t1, s0)
+	verifReach("recovered")
+	c1, err := DefaultDiff.TableDiff(a, b)
+	verifAssert(err == nil && len(c1) == 0, "no change between the inspected column and its re-created image")
+	c2, err := DefaultDiff.TableDiff(b, a)
+	verifAssert(err == nil && len(c2) == 0, "no change between the re-created image and the inspected column")
+	if u, ok := t0.(*UserDefinedType); ok {
+		verifAssert(s0 == u.T, "a user-defined type is exported with its exact spelling")
+	}
+}
+
+func VerifHarness_C03_types() { verifC03Types() }
